@@ -49,6 +49,9 @@ func TestNeighbourhoodRaw(t *testing.T) {
 		for i, e := range Neighbourhood(pe.S) {
 			kinds[e.Kind]++
 			total++
+			if testing.Short() && i%5 != 0 {
+				continue
+			}
 			n := e.Apply(pe.S)
 			st := Styles[i%len(Styles)]
 			path := filepath.Join(dir, "n.db")
